@@ -34,6 +34,7 @@ var c17Sources = []string{"a", "b", "@", "a.b", "a[0]", "a.a", "[0]", "(a[*])", 
 var c17Proj = []string{"[*]", "[]", "[?a]", "[?@]", "[1:]", "[::-1]", ".*", "[0:1]", "[?!a]", "[?@ == `null` || @]"}
 var c17Steps = []string{".a", ".b", "[0]", "[-1]", "[*]", ".*", "[?a]", "[1:]", ".[a]", ".[a,b]", ".{k:a}", ".k"}
 var c17Dotables = []string{"a", "b", "a.b", "a[0]", "[a]", "[a,b]", "{k:a}", `"a"`, "type(@)", "to_array(@)", "a[*]", "*", "a.*", "[a][0]", "b.type(@)", "a.to_array(@)", "b.not_null(@, 'd')", "[@]", "{v: @}", "a.[@]"}
+var c17BracketRHS = []string{"[0]", "[1:]", "[?a]", "[?a].a[?a]", "[?a].b[?@]", "[?@].a[?b]", "[?a][?b]", "[*].a", "[?a].a.b", "[?a][0]", "[0][?a]", "[?a].a[0]", "[?a].*", "[?a].a[*].b", "[::-1][?a]", "[?!a].b[?@]"}
 var c17Exprs = []string{"a", "b", "@", "a.b", "a[0]", "a[*]", "a.*", "`1`", "`null`", "'s'", "a || b", "a[?a]", "[a]", "length(@)", "$"}
 
 // documents nested five and six levels deep, arrays and objects alternating in different ways, with nulls on the way
@@ -121,6 +122,13 @@ func c17Instances(thorough bool) []c17Inst {
 			}
 			out = append(out, c17Inst{Schema: "dot-is-pipe", Kind: "guarded", LHS: x + "." + e, RHS: x + " | " + e, Guard: g})
 		}
+		// 2b. the same for right-hand sides that start with a bracket: x[*]E == map(&E, x) with nulls removed - E stands at
+		// the start of an expression on the right, so a filter or index in that position must parse as it does after x[*]
+		for _, e := range c17BracketRHS {
+			out = append(out, c17Inst{Schema: "wildcard-bracket-is-map", Kind: "prune", LHS: x + "[*]" + e, RHS: "map(&" + e + ", " + x + ")"})
+			out = append(out, c17Inst{Schema: "bracket-after-pipe", Kind: "eq", LHS: "(" + x + ")" + e, RHS: x + " | " + e})
+			out = append(out, c17Inst{Schema: "bracket-in-multiselect", Kind: "guarded", LHS: "[(" + x + ")" + e + "]", RHS: x + " | [" + e + "]", Guard: x})
+		}
 		// 8. x.* == values(x) modulo nulls
 		out = append(out, c17Inst{Schema: "star-is-values", Kind: "objvals", LHS: x + ".*", RHS: "values(" + x + ")", Guard: "type(" + x + ")"})
 	}
@@ -134,6 +142,10 @@ func c17Instances(thorough bool) []c17Inst {
 		out = append(out, c17Inst{Schema: "root-dot", Kind: "guarded", LHS: "$." + e, RHS: e, Guard: g})
 		for _, t := range c17Proj {
 			out = append(out, c17Inst{Schema: "current-proj", Kind: "eq", LHS: "@" + t, RHS: strings.TrimPrefix(t, ".")})
+		}
+		for _, e2 := range c17BracketRHS {
+			out = append(out, c17Inst{Schema: "current-proj", Kind: "eq", LHS: "@" + e2, RHS: e2})
+			out = append(out, c17Inst{Schema: "current-proj", Kind: "eq", LHS: "a | @" + e2, RHS: "a | " + e2})
 		}
 	}
 	out = append(out, c17Inst{Schema: "root-is-current", Kind: "eq", LHS: "$", RHS: "@"})
